@@ -1,6 +1,8 @@
 import N0Verif.Model.XPathApi
 import N0Verif.Proofs.XPathPureApi
 import N0Verif.Proofs.XPathPureInfix
+import N0Verif.Proofs.XPathPureDiverge
+import N0Verif.Proofs.XPathTok
 /-!
 # C04 — lookups are total and pure: a miss yields the default, never a change
 
@@ -119,13 +121,15 @@ theorem C04_qmark_miss_is_empty (fuel : Nat) (cls : Cls) (kvs : List (Str × Val
 
 /-- **Totality (full statement, not proved).**  For every tree and every string, `get` returns
 normally.  On the pinned tree this is false for paths with a `new()` step (finding C04-a:
-`d.get('[new()]')` lets `KeyError` escape); it is carried by the correspondence streams and the
-evaluator only. -/
+`d.get('[new()]')` lets `KeyError` escape, `C04_new_keyerror_cex`) and for trees with a key named
+`*` (finding C04-d: the search never ends, `C04_star_key_diverges_cex`).  Proved away from
+`new()` up to the model-only outcomes: `C04_get_total_partial`. -/
 def C04_get_total_stmt : Prop :=
   ∀ (t : Val) (s : Str) (d : Val), ∃ n, ∀ fuel ≥ n, ∃ v, (XPath.get fuel t s d).2 = .ok v
 
 /-- **Purity (full statement, not proved).**  No lookup changes the tree.  False on the pinned
-tree for paths with a `new()` step (finding C04-a); see `C04_new_writes_cex`. -/
+tree for paths with a `new()` step (finding C04-a); see `C04_new_writes_cex`.  Proved away from
+`new()`: `C04_pure_partial`. -/
 def C04_pure_stmt : Prop :=
   ∀ (t : Val) (s : Str) (d : Val) (fuel : Nat), (XPath.get fuel t s d).1 = t
 
@@ -259,13 +263,40 @@ theorem C04_getitem_errclass_partial (fuel : Nat) (t : Val) (s : Str) (e : PyErr
     · rfl
   · exact Or.inr hm
 
-/-- **Fuel adequacy (statement, not proved).**  Some fuel, depending on the tree and the path,
-is enough: `OutOfFuel` is an artefact of the model and does not stand for an infinite search.
-(The resolver re-resolves its `found` string from the root in the `..` step and after a
-`text()` condition, so no simple measure on the token list decreases; the correspondence
-streams never met a lookup that needs more than the harness's fuel.) -/
+/-- **A key named `*` makes a `*` step recurse for ever** (counter-example to totality that does
+not involve `new()`, and to fuel adequacy for arbitrary trees).  `n0dict({'*': 1}).get('*/x')`:
+the wildcard loop calls `_find([key] + xpath_list)`, which re-inserts the wildcard, and the key
+`*` is again a wildcard.  The model runs out of fuel for *every* fuel; the implementation raises
+RecursionError, which `get` does not funnel (finding C04-d).  Path and tree are `Safe`, so the
+`OutOfFuel` alternative of `C04_get_total_partial` cannot be dropped without a hypothesis on keys. -/
+theorem C04_star_key_diverges_cex (fuel : Nat) (d : Val) :
+    XPath.get fuel starTree ['*', '/', 'x'] d = (starTree, .error .OutOfFuel) := by
+  have htok : tokenize ['*', '/', 'x'] = starToks 0 := by decide
+  have h := (star_diverges fuel).1 0 true true
+  unfold XPath.get getCore
+  simp only [starTree] at h ⊢
+  have hq : startsWith ['*', '/', 'x'] ['?'] = false := by decide
+  have hp : hasPathChar ['*', '/', 'x'] = true := by decide
+  simp only [hq, hp, htok, h, Bool.false_eq_true, if_false, if_true]
+  rfl
+
+example : Safe ['*', '/', 'x'] ∧ SafeTree starTree := by
+  refine ⟨by decide, ?_⟩
+  simp only [SafeTree, starTree, SafeKeys, SafeKeysK, and_true]
+  decide
+
+/-- every dict key of the tree is a plain name (non-empty, none of `/ [ ] * ? = ~` quotes or
+blanks, not `..`) — the trees of the property's quantifier and of the harness -/
+def PlainTree (t : Val) : Prop := SafeKeys PlainKey t
+
+/-- **Fuel adequacy (statement, not proved).**  On a tree with plain-name keys some fuel,
+depending on the tree and the path, is enough: `OutOfFuel` then is an artefact of the model and
+does not stand for an infinite search.  (Without the hypothesis on keys it is false:
+`C04_star_key_diverges_cex`.  The resolver re-resolves its `found` string from the root in the
+`..` step and after a `text()` condition, so no simple measure on the token list decreases; the
+correspondence streams never met a lookup on a plain-key tree that exhausts the harness's fuel.) -/
 def C04_fuel_enough_stmt : Prop :=
-  ∀ (t : Val) (s : Str), Safe s → SafeTree t →
+  ∀ (t : Val) (s : Str), Safe s → PlainTree t →
     ∃ n, ∀ fuel ≥ n, ∀ d, (XPath.get fuel t s d).2 ≠ .error .OutOfFuel
 
 /-! Non-vacuity of the partial theorems: the hypotheses hold for paths that exercise the
